@@ -607,6 +607,13 @@ def rule_io(cx):
                         st['bad'] = 'short/failed %s ends with %s, expected I/O error' % (e.name, fmt(r) if r else p.end)
                 else:
                     st['eq'] = True
+                    # the complete transfer must be reported as such by functions that return their own status record
+                    if fn in ('persistent_fetch_checksum', 'persistent_store_checksum') and p.end == 'return':
+                        r = p.ret
+                        acc = r if r is not None and r[0] == 'c' else (dict(r[2]).get('access') if r is not None and r[0] == 'struct' else None)
+                        if acc != C(SUCCESS):
+                            st['bad'] = st['bad'] or ('a complete %s ends with status %s, expected PERSISTENT_ACCESS_SUCCESS (the status field is never assigned on that path)'
+                                                      % (e.name, fmt(acc) if acc else 'unassigned'))
     for sid, st in sorted(sites.items()):
         bad = st['bad']
         if bad is None and not (st['eq'] and st['ne']):
